@@ -177,7 +177,10 @@ def check_rebuild(c: Dict[str, Any]) -> List[Any]:
     feat = {'what': 'rebuild_' + kind, 'framing': spec['framing'], 'empty_body': not spec['body'],
             'ext': bool(spec.get('exts') and any(spec['exts'])) or bool(spec.get('last_ext')), 'trailers': bool(spec.get('trailers'))}
     try:
-        p = HttpParser.request(raw) if kind == 'req' else HttpParser.response(raw)
+        from proxy.http.parser import httpParserTypes
+        p = HttpParser(httpParserTypes.REQUEST_PARSER if kind == 'req' else httpParserTypes.RESPONSE_PARSER)
+        for piece in G.cut(raw, [x % max(1, len(raw)) for x in c.get('cuts', [])]):
+            p.parse(memoryview(piece))
         if not p.is_complete:
             return [V('original-not-complete', feat, None, 'complete')]
         z = p.build() if kind == 'req' else p.build_response()
@@ -211,7 +214,7 @@ def rebuild_cases(draw: Any, kind: str) -> Dict[str, Any]:
         msg['version'] = b'HTTP/1.1'
         if msg.get('reason') in (None, b''):
             msg['reason'] = b'OK'
-    return {'what': 'rebuild', 'msg': msg}
+    return {'what': 'rebuild', 'msg': msg, 'cuts': draw(st.one_of(st.just([]), st.lists(st.integers(1, 2000), min_size=1, max_size=4)))}
 
 
 # -- update_body ----------------------------------------------------------------------------------
@@ -313,8 +316,14 @@ def check_decoder_diff(c: Dict[str, Any]) -> List[Any]:
             'trailers': bool(spec.get('trailers')), 'truncated': cutoff is not None, 'zeros': spec.get('last_zeros', 1) > 1}
     done, body, used = chunk_ref.decode(data)
     p = ChunkParser()
+    rem = b''
     try:
-        rem = bytes(p.parse(memoryview(data)))
+        # the stream reaches the decoder in the reads the network delivers: one piece, or cut anywhere
+        for piece in G.cut(data, [x % max(1, len(data)) for x in c.get('cuts', [])]):
+            if p.state == chunkParserStates.COMPLETE:
+                rem += piece
+            else:
+                rem = bytes(p.parse(memoryview(piece)))
     except Exception as e:
         return [V('decoder-raises', dict(feat, exc=type(e).__name__), repr(e))]
     out = []
@@ -334,7 +343,8 @@ def decoder_cases(draw: Any) -> Dict[str, Any]:
     fr = draw(G.framing(('chunked',), 300))
     fr.pop('framing')
     trunc = draw(st.one_of(st.none(), st.none(), st.integers(1, 12)))
-    return {'what': 'decoder_diff', 'chunked': fr, 'tail': draw(st.binary(max_size=16)) if trunc is None else b'', 'truncate': trunc}
+    return {'what': 'decoder_diff', 'chunked': fr, 'tail': draw(st.binary(max_size=16)) if trunc is None else b'', 'truncate': trunc,
+            'cuts': draw(st.one_of(st.just([]), st.lists(st.integers(1, 2000), min_size=1, max_size=4)))}
 
 
 # -- plumbing -------------------------------------------------------------------------------------
